@@ -136,7 +136,7 @@ PairsQuick == {<<"A", "B">>, <<"E", "B">>, <<"A", "E">>, <<"A", "A">>, <<"N", "B
 PairsFull  == PairsQuick \cup {<<"E", "E">>, <<"L1", "B">>, <<"A", "L1">>, <<"A", "H1">>, <<"N", "N2">>, <<"B", "N">>, <<"H1", "H1">>,
                                <<"J", "B">>, <<"A", "J">>, <<"N", "N">>, <<"M2", "M">>}
 AttemptsQuick == {"W", "E"}
-AttemptsFull  == {"W", "E", "L2", "S32", "H2", "T127", "N2", "M2", "M", "J"}
+AttemptsFull  == {"W", "E", "L2", "S32", "H2", "T127"}   \* (offers with characters PDFDocEncoding lacks: see Toks)
 AllKnown == {"owner.R234.key", "streamdict.string", "pw.gt127.R56", "crypt.dparray", "metadata.nonstream", "restored.objstm.member",
              "pw.unencodable.R234", "crypt.belowV4", "metadata.streamdict"}
 \* documents in the state a loader leaves them in; the caller may edit these objects of them (each once) while unencrypted
